@@ -15,7 +15,12 @@ def isProEv : Ev → Bool
   | .write _ _ => true
   | .firstpoll _ => true
   | .rounddone _ => true
+  | .initread _ => true
+  | .comfail _ => true
   | _ => false
+
+theorem isProEv_of_isProl {e : Ev} (h : isProl e = true) : isProEv e = true := by
+  cases e <;> simp [isProl] at h <;> rfl
 
 /-- events the start phase may log after `ready` -/
 def isLateEv (e : Ev) : Bool := isProEv e || e == Ev.deadline
@@ -225,8 +230,7 @@ theorem ws_init (st : St) : WS (startEvents st) (waitInit st) := by
   · intro p hp e he
     simp only [waitInit, List.mem_map] at hp
     obtain ⟨t, _, rfl⟩ := hp
-    simp only [prologue, List.mem_append, List.mem_flatMap, List.mem_map, List.mem_singleton] at he
-    rcases he with (⟨m, _, p, _, rfl⟩ | ⟨m, _, rfl⟩) | rfl <;> rfl
+    exact isProEv_of_isProl (prologue_pro st t e he)
 
 theorem mainTodo_drain : ∀ (n : Nat) (w : Wait), w.mainTodo.length = n →
     (waitRun w (w.mainTodo.map (fun _ => Act.main))).mainTodo = [] := by
